@@ -513,6 +513,11 @@ def extract():
     # ---- UDP-over-TCP relay loops and the relay socket's address family ----------------------
     g["udpSites"] = udp_sites("src/server/udp_proxy.rs") + udp_sites("src/client/udp_client.rs")
     g["udpBind"] = udp_bind_rule()
+    # is the relay's socket connect()ed to the target?  (a connected UDP socket reports ICMP errors of earlier
+    # datagrams on later calls, and both loops treat any socket error as fatal)
+    hbody = fn_body(strip_comments(read("src/server/udp_proxy.rs")),
+                    r"pub async fn handle_udp_over_tcp\b.*?->\s*Result<\(\)>\s*\{", "handle_udp_over_tcp")
+    g["udpConnected"] = bool(re.search(r"\budp_socket\s*\.\s*connect\s*\(", hbody))
     # ---- the authentication gate of a server connection -------------------------------------
     g["authGate"] = auth_gate()
     return g
@@ -662,6 +667,9 @@ def render(g):
     a("  deriving DecidableEq, Repr")
     a("")
     a(f"def udpBind : BindRule := .{g['udpBind']}")
+    a("")
+    a("/-- the relay `connect()`s its UDP socket to the target -/")
+    a(f"def udpConnected : Bool := {'true' if g['udpConnected'] else 'false'}")
     a("")
     a("/-- how `handle_connection` awaits `authenticate_client` before it builds the session -/")
     a("inductive AuthGate where")
